@@ -260,22 +260,49 @@ theorem fmtNat_nodash (n : Nat) : ∀ c ∈ fmtNat n, c ≠ 0x2D := by
 theorem fmtInt_nonneg (v : Int) (h : 0 ≤ v) : fmtInt v = fmtNat v.toNat := by
   unfold fmtInt; rw [if_neg (by omega)]
 
-theorem digitsSpec_length_ge4 (n : Nat) (h : 1000 ≤ n) : 4 ≤ (digitsSpec n).length := by
-  obtain ⟨k, _, hlt, hk⟩ := foldl_pdStep_digits n 0
-  rw [← hk]
-  by_cases hc : 4 ≤ k
-  · exact hc
-  · have h3 : k ≤ 3 := by omega
-    have : 10 ^ k ≤ 10 ^ 3 := Nat.pow_le_pow_right (by omega) h3
-    omega
+theorem foldl_pdStep_zeros (k : Nat) :
+    (List.replicate k (0x30 : UInt8)).foldl pdStep (some 0) = some 0 := by
+  induction k with
+  | zero => rfl
+  | succ k ih =>
+    rw [List.replicate_succ, List.foldl_cons]
+    have : pdStep (some 0) 0x30 = some 0 := by decide
+    rw [this, ih]
 
-theorem fmtPad4_big (y : Int) (h : 1000 ≤ y) : fmtPad4 y = fmtNat y.toNat := by
-  unfold fmtPad4
-  rw [fmtInt_nonneg y (by omega)]
-  have : 4 ≤ (fmtNat y.toNat).length := by
-    rw [fmtNat_eq]; exact digitsSpec_length_ge4 _ (by omega)
-  simp only []
-  rw [show 4 - (fmtNat y.toNat).length = 0 by omega]; rfl
+theorem parseDigits_zeros_fmtNat (k n : Nat) :
+    parseDigits (List.replicate k 0x30 ++ fmtNat n) = some n := by
+  have hne : List.replicate k (0x30 : UInt8) ++ fmtNat n ≠ [] := by
+    rw [fmtNat_eq]; intro h
+    exact digitsSpec_ne_nil n (List.append_eq_nil_iff.mp h).2
+  rw [parseDigits_eq _ hne, List.foldl_append, foldl_pdStep_zeros, fmtNat_eq]
+  obtain ⟨_, hk, _, _⟩ := foldl_pdStep_digits n 0
+  simpa using hk
+
+theorem zeros_fmtNat_head (k n : Nat) :
+    ∃ c t, List.replicate k (0x30 : UInt8) ++ fmtNat n = c :: t ∧ isDigit c = true := by
+  cases k with
+  | zero =>
+    obtain ⟨c, t, hc, hd⟩ := digitsSpec_head n
+    exact ⟨c, t, by rw [fmtNat_eq, hc]; rfl, hd⟩
+  | succ k => exact ⟨0x30, _, by rw [List.replicate_succ]; rfl, by decide⟩
+
+theorem parseInt_zeros_fmtNat (k n : Nat) (h : n < 2 ^ 63) :
+    parseInt (List.replicate k 0x30 ++ fmtNat n) 64 = some (n : Int) := by
+  obtain ⟨c, t, hc, hd⟩ := zeros_fmtNat_head k n
+  have hs := isDigit_not_sign c hd
+  rw [hc, parseInt_nosign c t 64 hs.1 hs.2, ← hc, parseDigits_zeros_fmtNat]
+  simp [h]
+
+theorem fmtZero4_nonneg (y : Int) (h : 0 ≤ y) :
+    fmtZero4 y = List.replicate (4 - (fmtNat y.toNat).length) 0x30 ++ fmtNat y.toNat := by
+  unfold fmtZero4; rw [if_neg (by omega)]
+
+theorem fmtZero4_nodash (y : Int) (h : 0 ≤ y) : ∀ c ∈ fmtZero4 y, c ≠ 0x2D := by
+  rw [fmtZero4_nonneg y h]
+  intro c hc
+  rcases List.mem_append.mp hc with h1 | h1
+  · rw [List.mem_replicate] at h1; rw [h1.2]; decide
+  · exact fmtNat_nodash _ c h1
 
 theorem parseInt_zero2 (v : Int) (h0 : 0 ≤ v) (h : v < 2 ^ 63) :
     parseInt (fmtZero2 v) 64 = some v := by
@@ -298,25 +325,27 @@ theorem fmtZero2_nodash (v : Int) (h0 : 0 ≤ v) : ∀ c ∈ fmtZero2 v, c ≠ 0
     · rw [fmtInt_nonneg v h0] at hc; exact fmtNat_nodash _ c hc
   · rw [fmtInt_nonneg v h0] at hc; exact fmtNat_nodash _ c hc
 
-theorem wrapInt32_id (v : Int) (h1 : -(2 ^ 31 : Int) ≤ v) (h2 : v < 2 ^ 31) : wrapInt32 v = v := by
-  unfold wrapInt32; omega
-
-/-- `DateFromString(DateString(d)) = d` for four-digit (and wider) years -/
-theorem date_inv (y m d : Int) (hy : 1000 ≤ y) (hy2 : y < 2 ^ 31) (hm : 0 ≤ m) (hm2 : m < 2 ^ 31)
-    (hd : 0 ≤ d) (hd2 : d < 2 ^ 31) : dateFromString (dateString y m d) = some (y, m, d) := by
+/-- `DateFromString(DateString(d)) = d` for every calendar date with a non-negative year -/
+theorem date_inv (y m d : Int) (hy : 0 ≤ y) (hy2 : y < 2 ^ 31) (hm : 1 ≤ m) (hm2 : m ≤ 12)
+    (hd : 1 ≤ d) (hd2 : d ≤ daysInMonth y m) :
+    dateFromString (dateString y m d) = some (y, m, d) := by
+  have hd31 : d ≤ 31 := by
+    unfold daysInMonth at hd2
+    split at hd2
+    · split at hd2 <;> omega
+    · split at hd2 <;> omega
   unfold dateFromString dateString
-  rw [fmtPad4_big y hy]
   simp only [List.append_assoc, List.cons_append, List.nil_append]
-  have e0 := splitDash_append (fmtNat y.toNat) (fmtZero2 m ++ 0x2D :: fmtZero2 d) (fmtNat_nodash _)
-  rw [e0, splitDash_append _ _ (fmtZero2_nodash m hm),
-    splitDash_nodash _ (fmtZero2_nodash d hd)]
+  have e0 := splitDash_append (fmtZero4 y) (fmtZero2 m ++ 0x2D :: fmtZero2 d) (fmtZero4_nodash y hy)
+  rw [e0, splitDash_append _ _ (fmtZero2_nodash m (by omega)),
+    splitDash_nodash _ (fmtZero2_nodash d (by omega))]
   simp only []
-  have e1 : parseInt (fmtNat y.toNat) 64 = some y := by
-    have := parseInt_fmtInt y 64 (by omega) (by omega)
-    rwa [fmtInt_nonneg y (by omega)] at this
-  rw [e1, parseInt_zero2 m hm (by omega), parseInt_zero2 d hd (by omega)]
+  have e1 : parseInt (fmtZero4 y) 64 = some y := by
+    rw [fmtZero4_nonneg y hy, parseInt_zeros_fmtNat _ _ (by omega)]
+    congr 1; omega
+  rw [e1, parseInt_zero2 m (by omega) (by omega), parseInt_zero2 d (by omega) (by omega)]
   simp only []
-  rw [wrapInt32_id y (by omega) hy2, wrapInt32_id m (by omega) hm2, wrapInt32_id d (by omega) hd2]
+  rw [if_neg (by omega), if_neg (by omega), if_neg (by omega)]
 
 /-! ## base64 alternate alphabets -/
 
@@ -419,15 +448,26 @@ theorem fmtNat_head (n : Nat) : ∃ c r, fmtNat n = c :: r ∧ (c = 0x2D ∨ isD
   obtain ⟨c, t, hc, hd⟩ := digitsSpec_head n
   exact ⟨c, t, by rw [fmtNat_eq, hc], Or.inr hd⟩
 
+theorem nonFinite_finite (a c : Bool) (t : Bytes) : nonFinite a false c t = .bare t := by
+  simp [nonFinite]
+
+theorem finite32_exp (b : Nat) (h : finite32 b = true) : decide (b / 2 ^ 23 % 256 = 255) = false := by
+  simp only [finite32, Bool.and_eq_true, decide_eq_true_eq, bne_iff_ne, ne_eq] at h
+  simp [h.2]
+
+theorem finite64_exp (b : Nat) (h : finite64 b = true) : decide (b / 2 ^ 52 % 2048 = 2047) = false := by
+  simp only [finite64, Bool.and_eq_true, decide_eq_true_eq, bne_iff_ne, ne_eq] at h
+  simp [h.2]
+
 theorem scalarTok_num_of_head (t : Bytes) (h : ∃ c r, t = c :: r ∧ (c = 0x2D ∨ isDigit c = true)) :
     scalarTok (.bare t) = .num t := by
   obtain ⟨c, r, rfl, hc⟩ := h
   have := isDigit_ne_tf c hc
   exact scalarTok_bare_num c r this.1 this.2
 
-/-- per-scalar inverse pair (everything but narrow-year dates) -/
+/-- per-scalar inverse pair -/
 theorem scalar_roundtrip (O : Oracle) (L : OracleLaws O) (k : ScalarKind) (v : PVal)
-    (h : scalarRepr O k v = true) (hy : narrowYear v = false) :
+    (h : scalarRepr O k v = true) :
     ∃ out, encodeScalar O k v = .ok out ∧
       decodeScalar O k (scalarTok out) = .ok (some (canonScalar O v)) := by
   cases k <;> cases v <;> simp only [scalarRepr, Bool.false_eq_true] at h
@@ -468,12 +508,12 @@ theorem scalar_roundtrip (O : Oracle) (L : OracleLaws O) (k : ScalarKind) (v : P
   case float32.f32 b =>
     obtain ⟨hnum, b64, hp⟩ := L.f32 b h
     refine ⟨_, rfl, ?_⟩
-    rw [scalarTok_num_of_head _ (isJsonNumber_head _ hnum)]
+    rw [finite32_exp b h, nonFinite_finite, scalarTok_num_of_head _ (isJsonNumber_head _ hnum)]
     simp only [decodeScalar, hp]; rfl
   case float64.f64 b =>
     obtain ⟨hnum, b32, hp⟩ := L.f64 b h
     refine ⟨_, rfl, ?_⟩
-    rw [scalarTok_num_of_head _ (isJsonNumber_head _ hnum)]
+    rw [finite64_exp b h, nonFinite_finite, scalarTok_num_of_head _ (isJsonNumber_head _ hnum)]
     simp only [decodeScalar, hp]; rfl
   case bytes.bytes b =>
     refine ⟨_, rfl, ?_⟩
@@ -483,11 +523,10 @@ theorem scalar_roundtrip (O : Oracle) (L : OracleLaws O) (k : ScalarKind) (v : P
     refine ⟨_, rfl, ?_⟩
     simp only [scalarTok, decodeScalar, hp]; rfl
   case date.date y m d =>
-    simp only [Bool.and_eq_true, decide_eq_true_eq] at h
-    simp only [narrowYear, decide_eq_false_iff_not] at hy
+    simp only [decide_eq_true_eq] at h
     refine ⟨_, rfl, ?_⟩
     simp only [scalarTok, decodeScalar]
-    rw [date_inv y m d (by omega) (by omega) (by omega) (by omega) (by omega) (by omega)]; rfl
+    rw [date_inv y m d (by omega) (by omega) h.2.2.1 h.2.2.2.1 h.2.2.2.2.1 h.2.2.2.2.2]; rfl
   case decimal.dec s =>
     refine ⟨_, rfl, ?_⟩
     simp only [scalarTok, decodeScalar, canonScalar]
@@ -607,6 +646,118 @@ theorem isJsonNumber_fmtNat (n : Nat) : Wire.isJsonNumber (fmtNat n) = true := b
   simp only [List.append_nil] at this
   simp [Wire.isJsonNumber, this]
 
+/-! ## ASCII texts are valid UTF-8 -/
+
+theorem validUtf8_ascii : ∀ (fuel : Nat) (s : Bytes), s.length ≤ fuel → (∀ c ∈ s, c.toNat < 0x80) →
+    validUtf8 fuel s = true := by
+  intro fuel
+  induction fuel with
+  | zero => intro s hs _; have : s = [] := List.eq_nil_of_length_eq_zero (by omega); subst this; rfl
+  | succ f ih =>
+    intro s hs ha
+    cases s with
+    | nil => rfl
+    | cons c t =>
+      have hc := ha c List.mem_cons_self
+      have hd : decodeRune (c :: t) = (c.toNat, 1) := by simp [decodeRune, hc]
+      simp only [validUtf8, hd]
+      have : ¬ (c.toNat = runeError ∧ 1 = 1) := by unfold runeError; omega
+      simp only [this, if_false, List.drop_succ_cons, List.drop_zero]
+      exact ih t (by simp only [List.length_cons] at hs; omega) (fun x hx => ha x (List.mem_cons_of_mem _ hx))
+
+theorem isValidUtf8_ascii (s : Bytes) (h : ∀ c ∈ s, c.toNat < 0x80) : isValidUtf8 s = true :=
+  validUtf8_ascii s.length s (Nat.le_refl _) h
+
+theorem isDigit_ascii (c : UInt8) (h : isDigit c = true) : c.toNat < 0x80 := by
+  simp only [isDigit, Bool.and_eq_true, decide_eq_true_eq] at h; omega
+
+theorem fmtNat_ascii (n : Nat) : ∀ c ∈ fmtNat n, c.toNat < 0x80 := by
+  intro c hc; rw [fmtNat_eq] at hc
+  exact isDigit_ascii c (digitsSpec_all_digits n c hc)
+
+theorem fmtInt_ascii (v : Int) : ∀ c ∈ fmtInt v, c.toNat < 0x80 := by
+  unfold fmtInt
+  split
+  · intro c hc
+    rcases List.mem_cons.mp hc with rfl | hc
+    · decide
+    · exact fmtNat_ascii _ c hc
+  · exact fmtNat_ascii _
+
+theorem b64Char_ascii : ∀ v, v < 64 → (b64Char v).toNat < 0x80 := by decide
+
+theorem b64Encode_ascii (bs : Bytes) : ∀ c ∈ b64Encode bs, c.toNat < 0x80 := by
+  fun_induction b64Encode bs with
+  | case1 => intro c hc; cases hc
+  | case2 a n =>
+    have ha := a.toNat_lt
+    have hn : n = a.toNat := rfl
+    intro c hc
+    simp only [List.mem_cons, List.not_mem_nil, or_false] at hc
+    rcases hc with rfl | rfl | rfl | rfl
+    · exact b64Char_ascii _ (by omega)
+    · exact b64Char_ascii _ (by omega)
+    · decide
+    · decide
+  | case3 a b n =>
+    have ha := a.toNat_lt
+    have hb := b.toNat_lt
+    have hn : n = a.toNat * 256 + b.toNat := rfl
+    intro c hc
+    simp only [List.mem_cons, List.not_mem_nil, or_false] at hc
+    rcases hc with rfl | rfl | rfl | rfl
+    · exact b64Char_ascii _ (by omega)
+    · exact b64Char_ascii _ (by omega)
+    · exact b64Char_ascii _ (by omega)
+    · decide
+  | case4 a b c rest n ih =>
+    have ha := a.toNat_lt
+    have hb := b.toNat_lt
+    have hc := c.toNat_lt
+    have hn : n = a.toNat * 65536 + b.toNat * 256 + c.toNat := rfl
+    intro x hx
+    simp only [List.mem_cons] at hx
+    rcases hx with rfl | rfl | rfl | rfl | hx
+    · exact b64Char_ascii _ (by omega)
+    · exact b64Char_ascii _ (by omega)
+    · exact b64Char_ascii _ (by omega)
+    · exact b64Char_ascii _ (by omega)
+    · exact ih x hx
+
+theorem fmtZero2_ascii (v : Int) : ∀ c ∈ fmtZero2 v, c.toNat < 0x80 := by
+  unfold fmtZero2
+  split
+  · intro c hc
+    rcases List.mem_cons.mp hc with rfl | hc
+    · decide
+    · exact fmtInt_ascii _ c hc
+  · exact fmtInt_ascii _
+
+theorem fmtZero4_ascii (v : Int) : ∀ c ∈ fmtZero4 v, c.toNat < 0x80 := by
+  unfold fmtZero4
+  split
+  · intro c hc
+    rcases List.mem_cons.mp hc with rfl | hc
+    · decide
+    · rcases List.mem_append.mp hc with h | h
+      · rw [List.mem_replicate] at h; rw [h.2]; decide
+      · exact fmtNat_ascii _ c h
+  · intro c hc
+    rcases List.mem_append.mp hc with h | h
+    · rw [List.mem_replicate] at h; rw [h.2]; decide
+    · exact fmtNat_ascii _ c h
+
+theorem dateString_ascii (y m d : Int) : ∀ c ∈ dateString y m d, c.toNat < 0x80 := by
+  unfold dateString
+  intro c hc
+  simp only [List.mem_append, List.mem_cons, List.not_mem_nil, or_false] at hc
+  rcases hc with (((h | rfl) | h) | rfl) | h
+  · exact fmtZero4_ascii y c h
+  · decide
+  · exact fmtZero2_ascii m c h
+  · decide
+  · exact fmtZero2_ascii d c h
+
 /-! ## a lawful oracle exists (non-vacuity of `OracleLaws`) -/
 
 /-- not Go's functions: any injective text codec satisfies the laws the theorems assume -/
@@ -632,5 +783,6 @@ theorem toyOracle_laws : OracleLaws toyOracle where
     split at h
     · cases h; simp [*]
     · cases h
+  timeUtf8 s n _ := isValidUtf8_ascii _ (fmtNat_ascii _)
 
 end J5V.Codec
